@@ -67,6 +67,23 @@ static Val run_bauth(const Val &c)
     });
 }
 
+// family "bauthm": ONE middleware instance across a history:  case ::= ( realm ( step.. ) oracle )
+//   step ::= ( 0 user pass )  add()   |   ( 1 ops meta )  a connection whose headersParsed slot consults the middleware
+//   obs  ::= one log per connection step
+static Val run_bauthm(const Val &c)
+{
+    BasicAuthMiddleware mw(QString::fromUtf8(c.at(0).asBytes()));
+    Val out = Val::List();
+    for (auto &st : c.at(1).l) {
+        if (st.at(0).asInt() == 0) mw.add(QString::fromUtf8(st.at(1).asBytes()), QString::fromUtf8(st.at(2).asBytes()));
+        else out.add(runSocketWith(st.at(1), [&mw](Socket *s, Val &log) {
+            bool r = mw.process(s);
+            log.add(Val::List({Val::Int(30), Val::Int(r ? 1 : 0)}));
+        }));
+    }
+    return out;
+}
+
 static Val run_b64(const Val &c)
 {
     return Val::List({Val::Bytes(QByteArray::fromBase64(c.at(0).asBytes())), Val::Bytes(c.at(0).asBytes().toBase64())});
@@ -75,5 +92,6 @@ static Val run_b64(const Val &c)
 void reg_auth()
 {
     registerFamily("bauth", run_bauth);
+    registerFamily("bauthm", run_bauthm);
     registerFamily("b64", run_b64);
 }
